@@ -284,6 +284,60 @@ def _admissible_job(k):
     return {"k": k, "bad": bad, "case": {"kind": kind, "nx": nx, "ny": ny, "sym": sym, "shape": shape}}
 
 
+def _shared_snapshot():
+    """repr of every class-level and module-level mutable container (dict / list / set) defined in openaerostruct modules:
+    state that all instances, and all Problems of a process, share."""
+    import inspect
+    import sys
+
+    snap = {}
+    for mn, mod in list(sys.modules.items()):
+        if not mn.startswith("openaerostruct") or mod is None:
+            continue
+        for an, av in list(vars(mod).items()):
+            if isinstance(av, (dict, list, set)) and not an.startswith("__"):
+                snap["%s.%s" % (mn, an)] = repr(av)[:2000]
+            if inspect.isclass(av) and getattr(av, "__module__", "") == mn:
+                for cn, cv in list(vars(av).items()):
+                    if isinstance(cv, (dict, list, set)) and not cn.startswith("__"):
+                        snap["%s.%s.%s" % (mn, an, cn)] = repr(cv)[:2000]
+    return snap
+
+
+def _builder_job(k):
+    """MPhys builder objects and ordinary models created one after the other in one process: a builder / model created with
+    default arguments is configured the same whatever was created before it, and no shared container changes."""
+    import openaerostruct.mphys.aero_builder as ab
+
+    rng = np.random.default_rng(seed() * 137 + k)
+    bad = []
+    before = _shared_snapshot()
+    surf = B.surface_dict(dict(name="wing", nx=2, ny=3, sym=True, side="L", shape="swept", visc=True), rng=rng)
+    first = ab.AeroBuilder([surf])
+    ref_opts = copy.deepcopy(first.options)
+    ref_comp = first.get_coupling_group_subsystem().options["compressible"]
+    for j in range(3):
+        custom = {"user_specified_Sref": bool((k + j) % 2), "compressible": bool((k + j) % 3 == 0), "write_solution": False, "output_dir": "/dev/null/%d" % j}
+        other = ab.AeroBuilder([surf], options=custom)
+        for kk, vv in custom.items():
+            if other.options[kk] != vv:
+                bad.append(("builder:option_not_taken", {"option": kk}))
+        again = ab.AeroBuilder([surf])
+        if again.options != ref_opts:
+            bad.append(("builder:default_builder_depends_on_earlier_builders", {"options": {kk: repr(vv) for kk, vv in again.options.items()}, "expected": {kk: repr(vv) for kk, vv in ref_opts.items()}}))
+            break
+        if again.get_coupling_group_subsystem().options["compressible"] != ref_comp:
+            bad.append(("builder:coupling_group_depends_on_earlier_builders", {}))
+            break
+    m = B.AeroModel([dict(name="wing", nx=2, ny=3, sym=True, side="L", shape="swept", visc=True)], rng=rng)
+    m.run()
+    after = _shared_snapshot()
+    changed = sorted(kk for kk in before if kk in after and before[kk] != after[kk])
+    if changed:
+        bad.append(("shared_state_modified_at_run_time", {"containers": changed[:6]}))
+    return {"k": k, "bad": bad, "case": {"kind": "mphys_builders_and_shared_state", "shared_containers": len(before)}}
+
+
 def _multisec_job(k):
     """Multi-section surface described by USER-SUPPLIED section meshes (each in its own local frame, so the documented
     unification has to translate them): the documented workflow MultiSecGeometry / build_sections / unify_mesh / AeroPoint
@@ -311,6 +365,9 @@ def _multisec_job(k):
         meshes.append(m)
     surface = {"name": "surface", "is_multi_section": True, "num_sections": ns, "sec_name": ["sec%d" % i for i in range(ns)], "symmetry": True, "S_ref_type": "wetted", "meshes": meshes,
                "CL0": 0.0, "CD0": 0.015, "k_lam": 0.05, "c_max_t": 0.303, "with_viscous": False, "with_wave": False, "groundplane": False}
+    # a different thickness-to-chord ratio on every section (sections have different numbers of spanwise nodes)
+    tcs = [0.08 + 0.02 * i for i in range(ns)]
+    surface["t_over_c_cp"] = [np.array([t]) for t in tcs]
     pristine = copy.deepcopy(surface)
     h0 = [_sha(m) for m in meshes]
 
@@ -332,7 +389,8 @@ def _multisec_job(k):
         prob.model.connect(uni, "pt.aero_states.surface_def_mesh")
         prob.setup()
         prob.run_model()
-        return {"CL": np.array(prob.get_val("pt.CL")), "CD": np.array(prob.get_val("pt.CD")), "CM": np.array(prob.get_val("pt.CM")), "uni": np.array(prob.get_val(uni)), "u1": u1, "u2": u2}
+        return {"CL": np.array(prob.get_val("pt.CL")), "CD": np.array(prob.get_val("pt.CD")), "CM": np.array(prob.get_val("pt.CM")), "uni": np.array(prob.get_val(uni)), "u1": u1, "u2": u2,
+                "toc": np.array(prob.get_val("surface.surface_unification.surface_uni_t_over_c")).ravel()}
 
     bad = []
     with warnings.catch_warnings():
@@ -344,6 +402,10 @@ def _multisec_job(k):
             if [_sha(m) for m in meshes] != h0:
                 bad.append(("multisec:user_section_mesh_modified", {"after_problem": rep}))
                 break
+    # the unified thickness-to-chord distribution is the sections' own, in the order of the sections
+    want = np.concatenate([np.full(m.shape[1] - 1, t) for m, t in zip(meshes, tcs)])
+    if ref["toc"].shape != want.shape or not (float(np.max(np.abs(ref["toc"] - want))) <= 1e-12):
+        bad.append(("multisec:unified_t_over_c", {"got": ref["toc"].tolist(), "want": want.tolist()}))
     for i, r in enumerate(runs):
         if not np.array_equal(r["u1"], r["u2"]):
             bad.append(("multisec:unify_mesh_not_repeatable", {"problem": i}))
@@ -411,6 +473,10 @@ def run(tier, only=None):
         R.case(["admissible", r["k"]], True, sample=r["case"] if r["k"] % 13 == 0 else None, section="admissible")
         for sig, p in r["bad"]:
             R.violation(sig, {"k": r["k"], "case": r["case"], "detail": p})
+    for r in check_exc(pmap(_builder_job, range(6 if tier == "quick" else 40))):
+        R.case(["builders", r["k"]], True, sample=r["case"] if r["k"] == 0 else None, section="shared_state")
+        for sig, p in r["bad"]:
+            R.violation(sig, {"k": r["k"], "detail": p})
     for r in check_exc(pmap(_multisec_job, range(12 if tier == "quick" else 120))):
         R.case(["multisec", r["k"]], True, sample=r["case"] if r["k"] % 5 == 0 else None, section="multisection")
         for sig, p in r["bad"]:
